@@ -16,8 +16,18 @@ PY = sys.executable
 LANES = 16
 
 
-def _env(hash_seed: int) -> dict:
+def optimize_for_lane(lane: int) -> bool:
+    """Two lanes in sixteen run their interpreter with assertions disabled (python -O,
+    PYTHONOPTIMIZE=1), as production deployments often do: code under test whose `assert`
+    statements have side effects behaves differently there."""
+    return lane % 8 == 7
+
+
+def _env(hash_seed: int, optimize: bool = False) -> dict:
     env = dict(os.environ)
+    env.pop("PYTHONOPTIMIZE", None)
+    if optimize:
+        env["PYTHONOPTIMIZE"] = "1"
     env.update(
         PYTHONHASHSEED=str(hash_seed),
         NUMEXPR_MAX_THREADS="1",
@@ -32,12 +42,12 @@ def _env(hash_seed: int) -> dict:
     return env
 
 
-def spawn(cfg: dict, hash_seed: int):
+def spawn(cfg: dict, hash_seed: int, optimize: bool = False):
     return subprocess.Popen(
         [PY, "-m", "dsim.worker", json.dumps(cfg)],
         stdout=subprocess.PIPE,
         stderr=subprocess.PIPE,
-        env=_env(hash_seed),
+        env=_env(hash_seed, optimize),
         cwd=VERIF,
         text=True,
     )
@@ -78,7 +88,7 @@ def replay_file(prop: str, path: str, timeout=300):
     """Replay a scenario file in a fresh interpreter with its recorded hash seed."""
     scn = json.load(open(path))
     cfg = {"check": prop, "replay": path, "hard_timeout": timeout}
-    p = spawn(cfg, scn.get("hash_seed", 0) or 0)
+    p = spawn(cfg, scn.get("hash_seed", 0) or 0, bool(scn.get("py_optimize")))
     (res, errors) = collect([("replay", p)], timeout + 10)
     if errors:
         return None, errors
@@ -140,7 +150,7 @@ def run_check(prop: str, tier: str) -> int:
             "shrink_s": 30.0 if tier == "quick" else 60.0,
             "replay_dir": replay_dir,
         }
-        procs.append((f"lane{lane}", spawn(cfg, hash_seed_for_lane(base, lane))))
+        procs.append((f"lane{lane}", spawn(cfg, hash_seed_for_lane(base, lane), optimize_for_lane(lane))))
     results, errors = collect(procs, budget * 3 + 300)
     if stop_file and os.path.exists(stop_file):
         os.remove(stop_file)
@@ -192,7 +202,7 @@ def run_check(prop: str, tier: str) -> int:
             if hash_free:
                 hs = 1 + (hs + 977) % 4096
             cfg = {"check": prop, "tier": tier, "base": base, "indices": mine, "hard_timeout": int(budget * 3 + 240), "max_violations": 0}
-            procs.append((f"det{lane}", spawn(cfg, hs)))
+            procs.append((f"det{lane}", spawn(cfg, hs, optimize_for_lane(lane))))
         res_b, err_b = collect(procs, budget * 3 + 300)
         errors += err_b
         digests_b = {}
